@@ -124,6 +124,27 @@ def t_poisson(D, N, L, order, seed):
     return ok, f"Poisson order {order}, D={D} N={N} L={L}: deviation {err:.3e}, mean {np.mean(u):.2e}"
 
 
+def t_operator_symbols(D, N, L, seed):
+    """build_laplace_operator (orders 0..8) and build_gradient_inner_product_operator (orders 1..9) at every stored mode against an
+    independent evaluation of sum_c (i kappa_c)^order resp. sum_c v_c (i kappa_c)^order"""
+    ex, jnp = _ex()
+    rng = np.random.default_rng(seed)
+    dop = ex.spectral.build_derivative_operator(D, L, N)
+    wn = np.asarray(ex.spectral.build_wavenumbers(D, N)) * (2 * np.pi / L)
+    v = rng.uniform(-1.5, 1.5, D)
+    for order in (0, 2, 4, 6, 8):
+        got = np.asarray(ex.spectral.build_laplace_operator(dop, order=order))[0]
+        exp = sum((1j * wn[c]) ** order for c in range(D)) if order > 0 else np.ones_like(wn[0], dtype=complex)
+        if np.max(np.abs(got - exp)) > 1e-11 * (1 + np.max(np.abs(exp))):
+            return False, f"build_laplace_operator(order={order}) D={D} N={N} L={L}: deviation {np.max(np.abs(got - exp)):.3e}"
+    for order in (1, 3, 5, 7, 9):
+        got = np.asarray(ex.spectral.build_gradient_inner_product_operator(dop, jnp.asarray(v), order=order))[0]
+        exp = sum(v[c] * (1j * wn[c]) ** order for c in range(D))
+        if np.max(np.abs(got - exp)) > 1e-11 * (1 + np.max(np.abs(exp))):
+            return False, f"build_gradient_inner_product_operator(order={order}) D={D} N={N} L={L}: deviation {np.max(np.abs(got - exp)):.3e}"
+    return True, ""
+
+
 def t_parity(order):
     ex, jnp = _ex()
     dop = ex.spectral.build_derivative_operator(2, 1.0, 6)
@@ -137,7 +158,7 @@ def t_parity(order):
     return a and b, f"parity guard for order {order}: laplace ok={a}, gradient inner product ok={b}"
 
 
-TESTS = dict(derivative=t_derivative, poisson=t_poisson, parity=t_parity)
+TESTS = dict(operator_symbols=t_operator_symbols, derivative=t_derivative, poisson=t_poisson, parity=t_parity)
 
 
 def witness(ctx):
@@ -147,6 +168,8 @@ def witness(ctx):
         for C in ((1, 2) if not deep else (1, 2, 3)):
             for order in ((1, 2, 3, 6) if not deep else range(1, 7)):
                 ctx.check("derivative", dict(D=D, N=N, C=C, L=float(ctx.rng.choice([1.0, 2.7, 6.5])), order=order, seed=ctx.seed + order))
+        for Lp in (2.7, 1.0):
+            ctx.check("operator_symbols", dict(D=D, N=N, L=Lp, seed=ctx.seed))
         for order in (2, 4):
             for Lp in (3.3, 1.0e5, 1.0e-3):
                 ctx.check("poisson", dict(D=D, N=N, L=Lp, order=order, seed=ctx.seed))
